@@ -272,10 +272,12 @@ Fixpoint pipe_loop (l : list (nat * seg)) (t : segments) (high_rxt threshold now
       end
   end.
 
-(* None = the `range_mut(..take)` index panic *)
+(* None = the `range_mut(..take)` index panic; unreachable since `take` is clamped to the table
+   length (repair of D21: an ACK for never-sent segments, or more segments than the wrap tolerance,
+   made the distance high_data - snd_una exceed the table) *)
 Definition calc_pipe (t : segments) (high_rxt high_data rtt now : Z)
   : option (segments * Z * option Z) :=
-  let take := Z.max (seq_sub high_data (ss_snd_una t)) 0 in
+  let take := Z.min (Z.max (seq_sub high_data (ss_snd_una t)) 0) (len_z (ss_segs t)) in
   if len_z (ss_segs t) <? take then None
   else
     let n := Z.to_nat take in
